@@ -1,7 +1,8 @@
 #!/bin/sh
 # Builds the framework from files on disk only and pre-warms the Go build cache.
 set -e
-cd /verif
+cd "$(dirname "$0")/.." || exit 2
+VERIF_DIR=$(pwd); export VERIF_DIR
 export GOFLAGS=-mod=mod GOPROXY=off GOSUMDB=off GOTOOLCHAIN=local GOWORK=off GODEBUG=goindex=0
 mkdir -p bin evidence replays
 (cd instr && go build -o ../bin/instr .)
@@ -9,7 +10,7 @@ go build -o bin/vcheck ./cmd/vcheck
 # one instrumented build of the worker warms the cache for every check
 S=$(mktemp -d /dev/shm/verif-setup-XXXXXX 2>/dev/null || mktemp -d)
 trap 'rm -rf "$S"' EXIT
-bin/instr -out "$S" github.com/olive-io/bpmn/v2 github.com/olive-io/bpmn/v2/pkg/... github.com/olive-io/bpmn/v2/model github.com/muyo/sno github.com/muyo/sno/internal verif/harness/...
+bin/instr -out "$S" -rt "$VERIF_DIR/rt" -dir "$VERIF_DIR" github.com/olive-io/bpmn/v2 github.com/olive-io/bpmn/v2/pkg/... github.com/olive-io/bpmn/v2/model github.com/muyo/sno github.com/muyo/sno/internal verif/harness/...
 go build -overlay "$S/overlay.json" -o "$S/worker" ./harness/cmd/worker
 # the same in race mode (C17): warms the -race cache
 go build -race -gcflags=github.com/olive-io/bpmn/v2/verifrt=-race=false -overlay "$S/overlay.json" -o "$S/worker-race" ./harness/cmd/worker
